@@ -4,7 +4,7 @@
    have the same names in the same order and, unless (name, v) is in a recorded defect class of fs,
    g v = Ok (spec (view v)) where view v are the bytes within the length.
    Only statements, each closed by [exact]; proofs in Proofs/Views*.v. *)
-From PV Require Import Model.ViewsShow Spec.Views Proofs.ViewsBase Proofs.Views5 Proofs.Views Proofs.Views2 Proofs.Views3 Proofs.Views4 Proofs.Views6 Proofs.ViewsLen.
+From PV Require Import Model.ViewsDispatch Model.ViewsShow Spec.Views Proofs.ViewsBase Proofs.Views5 Proofs.Views Proofs.Views2 Proofs.Views3 Proofs.Views4 Proofs.Views6 Proofs.ViewsLen.
 Open Scope N_scope.
 
 Theorem C02_ARP_getters_spec : forall v, wf v -> bytes_ok (arr v) ->
@@ -186,3 +186,43 @@ Theorem C02_Ether_full_on_payload_frames : forall v, wf v -> bytes_ok (arr v) ->
   (len v <> eth_hlen v \/ cap v = len v) -> getters_spec [] Ether_getters Ether_specs v.
 Proof. intros v W B H D. exact (proj2 (Ether_full_on_payload_frames v W B H D)). Qed.
 Print Assumptions C02_Ether_full_on_payload_frames.
+
+(* ---- round 7b ---- *)
+(* DECODERS ARE READ-ONLY AND IDEMPOTENT.  A call of a model getter / validator is the step
+   [getter_step g store = (g store, store)]: the model has no write primitive (getters are compositions of idx, sl,
+   slfrom, be16_at, be32_at on the store), so the store after the call is the store before it and a second call
+   gives the same result.  True by construction; stated because it is what the harness ties on the implementation:
+   every g / ga / gb call runs on a poisoned backing array (view + spare capacity) that is compared byte by byte
+   before and after, and is made twice (observations obs!write@off / obs!again=... can only come from the
+   implementation).  Returned slices: the model's [VR off n] has a length only; in the implementation NO getter clips
+   the capacity (kind "caps": every aliasing getter is n/0 two-index / three-index), so append() on any returned
+   slice would write into the frame -- listed in Model/ViewsDispatch.slice_census and docs/C02_views.md. *)
+Theorem C02_getters_read_only : forall (g : getter) (s : slice),
+  snd (getter_step g s) = s /\ getter_step g (snd (getter_step g s)) = getter_step g s.
+Proof. exact getters_read_only. Qed.
+Print Assumptions C02_getters_read_only.
+Theorem C02_validators_read_only : forall (iv : slice -> res bool) (s : slice),
+  snd (valid_step iv s) = s /\ valid_step iv (snd (valid_step iv s)) = valid_step iv s.
+Proof. exact valid_read_only. Qed.
+Print Assumptions C02_validators_read_only.
+
+(* LLDP.Type(t): the 802.1AB table of TLV types (Spec/Views2.lldp_type_table), other types as their number *)
+Theorem C02_LLDP_Type_spec : forall t,
+  LLDP_Type_name t = match lookupN t lldp_type_table with Some s => s | None => dec_of_N t end.
+Proof. exact LLDP_Type_spec. Qed.
+Print Assumptions C02_LLDP_Type_spec.
+
+(* LLDP.Capability(v) against 802.1AB table 8-4 (bit 0 = least significant = Other): refuted (a router, capability
+   octet 0x10, is printed as "AP"; recorded finding view-lldp-capability-bit-order) and characterised exactly: for
+   every value the code's answer is the spec's answer for the mirrored octet; short values agree *)
+Theorem C02_LLDP_Capability_refuted :
+  LLDP_Capability_s [0; 16] = "AP"%string /\ lldp_capability_spec [0; 16] = "router"%string.
+Proof. exact LLDP_Capability_refuted. Qed.
+Print Assumptions C02_LLDP_Capability_refuted.
+Theorem C02_LLDP_Capability_mirror_exact : forall a r b, b < 256 ->
+  LLDP_Capability_s (a :: b :: r) = lldp_capability_spec (a :: mirror8 b :: r).
+Proof. exact LLDP_Capability_mirror. Qed.
+Print Assumptions C02_LLDP_Capability_mirror_exact.
+Theorem C02_LLDP_Capability_short : forall v, (List.length v < 2)%nat -> LLDP_Capability_s v = lldp_capability_spec v.
+Proof. exact LLDP_Capability_short. Qed.
+Print Assumptions C02_LLDP_Capability_short.
